@@ -166,6 +166,13 @@ def run(tier, seed):
             behs.append(vlib.trace_behaviour(b, "%s-%d" % (tag, k), "sim", STATE_VARS))
         transitions += rs.generated
         cov.setdefault("sim_behaviours", {})[cfg] = len(sb)
+        # ... the same behaviours on a network whose every broadcast reports an error (what is stored and refused must
+        # not depend on the result of a broadcast; added after round-3 seed C15-seed5)
+        import copy
+        for k, b in enumerate(sb[:max(4, len(sb) // 3)]):
+            fb = copy.deepcopy(vlib.trace_behaviour(b, "%s-%d-bfail" % (tag, k), "sim", STATE_VARS))
+            behs.append(fb)
+            cov["broadcast_fault_copies"] = cov.get("broadcast_fault_copies", 0) + 1
     # ... edge covers of the small state graphs with read faults ...
     for fut in f_cover:
         cfg, cb, stats, rc_ = fut.result()
